@@ -393,5 +393,11 @@ def pool_map(fn, items, procs=None, chunksize=None):
     if len(items) <= 1 or procs == 1:
         return [fn(x) for x in items]
     ctx = mp.get_context('fork')
-    with ctx.Pool(procs, maxtasksperchild=None) as pool:
-        return pool.map(fn, items, chunksize or max(1, len(items) // (procs * 4)))
+    pool = ctx.Pool(procs, maxtasksperchild=None)
+    try:
+        out = pool.map(fn, items, chunksize or max(1, len(items) // (procs * 4)))
+        pool.close()        # let the workers end by themselves (tools/cov.sh collects their line coverage at exit)
+        pool.join()
+        return out
+    finally:
+        pool.terminate()
